@@ -46,7 +46,7 @@ ASSUMPTIONS = [
     "top-level JSON scalars are limited to None/bool/str/|int|<2^53 because SQLite gives a column declared JSON NUMERIC affinity (text->number conversion is SQLite's); nested JSON is unrestricted",
     "CAST contexts only for types whose SQLite CAST is value preserving (Integer family, String/Text, LargeBinary, Float, Uuid as CHAR(32), and the counting decorators over String/Integer)",
     "counters count non-None values only (the ORM omits None attributes from INSERT parameter sets by design)",
-    "procs tier trusts the driver model: psycopg2 returns list for arrays / str for enum labels / datetime for timestamps; MySQL drivers return timedelta for TIME and bytes for BIT; pyodbc returns str for DATETIMEOFFSET-less DATE/TIME on legacy servers is NOT modelled",
+    "procs tier trusts the driver model: PG drivers return list for arrays, str for enum labels, Decimal for NUMERIC (type code 1700) and float for FLOAT8 (701); MySQL drivers return timedelta for TIME; DBAPI Binary() wrappers carry bytes unchanged; date/time types are modelled only where the bind processor hands the driver the same Python type",
     "Interval (non-native) domain is epoch+delta within datetime.min..max",
 ]
 
